@@ -2,9 +2,9 @@ From Coq Require Import Bool List.
 From Verif Require Import Base.Run C01.Model C01.Spec.
 Import ListNotations.
 
-(* one case = one Saml2Client (one configuration) consuming a sequence of messages; for every
-   message the identity (or not) observed on the real implementation *)
-Definition case := (config * list (msg * bool))%type.
+(* one case = one Saml2Client (one configuration, reaching it in one way: Model.client) consuming a
+   sequence of messages; for every message the identity (or not) observed on the real implementation *)
+Definition case := (client * list (msg * bool))%type.
 
 Definition cfg (wr wa wor only : optv) : config := {| c_wr := wr; c_wa := wa; c_wor := wor; c_only := only |}.
 Definition sg (k : key) (i : kinfo) (c : bool) : option sgn := Some {| signer := k; ki := i; corrupt := c; shp := std |}.
@@ -13,7 +13,11 @@ Definition sgx (k : key) (i : kinfo) (c : bool) (rf : list rtarget) (ca : calg) 
   Some {| signer := k; ki := i; corrupt := c; shp := {| refs := rf; c14n := ca; trs := t; obj := o; xsig := x |} |}.
 Definition st (rw aw : who) (r a : option sgn) (e : bool) (b : bind) (obs : bool) : msg * bool :=
   ({| r_who := rw; a_who := aw; m_rs := r; m_as := a; m_enc := e; m_bind := b |}, obs).
-Definition mk (c : config) (steps : list (msg * bool)) : case := (c, steps).
+(* the clients of rounds 1-3: an SPConfig loaded from a dict and handed over as config= *)
+Definition mk (c : config) (steps : list (msg * bool)) : case := (client_of c, steps).
+(* round 4: delivery, assigned context, second service section, the three options as written *)
+Definition mkc (d : deliver) (a : option octx) (p : bool) (wr wa wor : written) (only : optv) (steps : list (msg * bool)) : case :=
+  ({| k_deliver := d; k_assigned := a; k_proxy := p; k_wr := wr; k_wa := wa; k_wor := wor; k_only := only |}, steps).
 
 (* the four signature states of the single-message truth table, as in round 1 *)
 Definition sAbsent := sgn_of Absent.
@@ -24,11 +28,16 @@ Definition sUntrusted := sgn_of Untrusted.
 Definition bool_list_eqb (a b : list bool) : bool :=
   Nat.eqb (length a) (length b) && forallb (fun p => Bool.eqb (fst p) (snd p)) (combine a b).
 
-Definition agrees (c : case) : bool := bool_list_eqb (sp_run (fst c) (map fst (snd c))) (map snd (snd c)).
-Definition holds (c : case) : bool := spec_seq_b (fst c) (map fst (snd c)) (map snd (snd c)).
+Definition agrees (c : case) : bool := bool_list_eqb (client_run (fst c) (map fst (snd c))) (map snd (snd c)).
+Definition holds (c : case) : bool := spec_client_b (fst c) (map fst (snd c)) (map snd (snd c)).
 Definition cls (c : case) : nat := 0.
 Definition run := run_cases agrees holds cls.
 (* per message: (model, observed, satisfied, otherwise valid, state of the Response signature, of the assertion's) *)
 Definition explain (c : case) :=
-  map (fun p => (parse_message (fst c) (fst p), snd p, satisfied_m_b (fst c) (fst p), otherwise_valid_b (fst p),
-                 r_state (fst c) (fst p), a_state (fst c) (fst p))) (snd c).
+  (current_ctx (fst c), read_config (fst c), meant_config (fst c),
+   match read_config (fst c), meant_config (fst c) with
+   | Some rc, Some mc =>
+       map (fun p => (parse_message rc (fst p), snd p, satisfied_m_b mc (fst p),
+                      otherwise_valid_b (fst p), r_state mc (fst p), a_state mc (fst p))) (snd c)
+   | _, _ => map (fun p => (false, snd p, false, false, Absent, Absent)) (snd c)    (* no client: no identity *)
+   end).
